@@ -12,7 +12,8 @@ op
                 "attrs":[[id,n_calls,num_timesteps,extra],…],"bests":[[id,null|[n,d]],…]},…]}
   T ::= null | {"t":"leaf","id":i,"stops":[…]} | {"t":"list","id":i,"ch":[T…]}
       | {"t":"everyN","id":i,"n":n,"ch":T} | {"t":"eval","id":i,"freq":f,"best":T,"after":T}
-      | {"t":"ckpt","id":i,"freq":f} | {"t":"maxep","id":i,"max":m}
+      | {"t":"ckpt","id":i,"freq":f} | {"t":"maxep","id":i,"max":m} | {"t":"fn","id":i,"stops":[…]}
+      | {"t":"thr","id":i,"thr":q} | {"t":"noimp","id":i,"max":k,"min":k}     (null root = callback=None)
 op {"op":"calls","tree":T,"n_envs":n,"dones":[…],"evals":[…],"calls":[[call,arg],…]}
   → {"events":[…],"oks":[bool…],"attrs":[…],"bests":[…]}      (entry points invoked directly)
 -/
@@ -38,7 +39,10 @@ partial def parseTree (nEnvs : Nat) (j : Json) : Except String Cb := do
     let f ← getNat j "freq"
     if f = 0 then throw "checkpoint-freq-0"
     return .checkpoint id f 0 0
-  | "maxep" => return .maxEp id ((← getNat j "max") * nEnvs) 0 0 0 0
+  | "maxep" => return .maxEp id (← getNat j "max") nEnvs 0 0 0 0
+  | "fn" => return .fn id (← getList asNat j "stops") 0 0 0 0
+  | "thr" => return .rewardThr id (← getRat j "thr") 0 0
+  | "noimp" => return .noImprove id (← getNat j "max") (← getNat j "min") none 0 0 0
   | _ => throw s!"bad-node {t}"
 
 def kindS : Kind → String
